@@ -73,9 +73,9 @@ func checkHistory(ref *Resp, r *Resp) []c14Fail {
 
 func runC14(c *Ctx) error {
 	thorough := c.Tier == "thorough"
-	nprog := envInt("VERIF_C14_PROGRAMS", 300)
-	nfull := envInt("VERIF_C14_FULL", 4)
-	ncli := envInt("VERIF_C14_CLI", 12)
+	nprog := envInt("VERIF_C14_PROGRAMS", 450)
+	nfull := envInt("VERIF_C14_FULL", 6)
+	ncli := envInt("VERIF_C14_CLI", 18)
 	if thorough {
 		nprog = envInt("VERIF_C14_PROGRAMS", 40000)
 		nfull = envInt("VERIF_C14_FULL", 1000)
